@@ -30,6 +30,28 @@ def run(repo, rep, tier):
     r2 = rep.rule("R11.2", "__reduce__ covers None/str/function and raises otherwise; deserializers restore every attribute", floor=6)
     r3 = rep.rule("R11.3", "self.x reads resolve in the pickling helpers", floor=20)
     r4 = rep.rule("R11.4", "Select.__getattr__ cannot recurse during unpickling", floor=2)
+    # a clone compares equal to its original only if == looks at data whose equality survives a copy: code bytes and names do;
+    # default arguments, closures and globals hold arbitrary objects (NaN != a copy of NaN inside a tuple, arrays raise on ==)
+    r7 = rep.rule("R11.7", "UserFcn.__eq__ compares function quantities by code and names only (values whose == survives a pickle copy)", floor=1)
+    um0 = repo.modules.get("histogrammar.util")
+    ueq = repo.own_method(um0.classes["UserFcn"], "__eq__") if um0 is not None and "UserFcn" in um0.classes and "__eq__" in um0.classes["UserFcn"].methods else None
+    if ueq is None:
+        raise AnalysisError("UserFcn.__eq__ not found")
+    rep.analysed_functions.add(ueq.construct)
+    FRAGILE = {"__defaults__", "__kwdefaults__", "__closure__", "__globals__", "__dict__"}
+    cmps = [n for n in ast.walk(ueq.node) if isinstance(n, ast.Compare) and any(isinstance(o, (ast.Eq, ast.NotEq)) for o in n.ops)]
+    for n in cmps:
+        bad = sorted({a.attr for a in ast.walk(n) if isinstance(a, ast.Attribute) and a.attr in FRAGILE})
+        r7.ob(not bad, f"UserFcn.__eq__: `{ast.unparse(n)[:60]}`")
+        if bad:
+            rep.finding("R11.7", ueq, n, f"UserFcn.__eq__ compares `{bad[0]}` of the two functions with ==: pickle copies these objects by value, "
+                        f"and == on the copies is not reflexive for a NaN inside the tuple (identity shortcut lost) and raises for a numpy "
+                        f"array: the unpickled clone of an aggregator whose quantity has such a default no longer equals the original",
+                        stmt=f"UserFcn.__eq__ compares {bad[0]}")
+    # the state of a string quantity lives in its compiled closure, which is not pickled: it must hold nothing that depends on the
+    # records seen so far, or the clone (fresh closure) and the original diverge on the next record
+    rep.borrow(repo, "C17", {"R17.4": ("R11.8", "the evaluation namespace of a string quantity is built per call: nothing a record leaves behind survives in the (unpickled) closure", 2)},
+               keep=lambda f: "namespace" in (f.stmt or ""))
     # an unpickled Count carries a COPY of `identity` as its transform, so `transform is identity` is false for the clone: it takes
     # the general branch of Bin/CentrallyBin/Count._numpy where the original takes the fast one.  Both must do what fill does.
     rep.borrow(repo, "C03", {"R3.1": ("R11.5", "the branches of _numpy selected by `transform is identity` (original: fast path, unpickled clone: general path) have the same effect", 300),
